@@ -560,10 +560,27 @@ func vtC06LedgerExec(in []int64) []int64 {
 	rm := NewResourceManager(vtC06Suit.Handle, vtC06Strategy(most), tom)
 	node := &corev1.Node{ObjectMeta: metav1.ObjectMeta{Name: vtC06Node}}
 	var out []int64
+	// bookkeeping of Spec.concretize / edges_alloc: (guest, host, CPUs the guest holds out of the host's)
+	type edge struct {
+		guest, host int64
+		set         cpuset.CPUSet
+	}
+	var edges []edge
+	edgesDel := func(uid int64) {
+		kept := edges[:0]
+		for _, e := range edges {
+			if e.guest != uid && e.host != uid {
+				kept = append(kept, e)
+			}
+		}
+		edges = kept
+	}
+	liveSet := func(uid int64) (cpuset.CPUSet, bool) { return rm.GetAllocatedCPUSet(vtC06Node, vtC06UID(uid)) }
 	nops := int(r.next())
 	for k := 0; k < nops; k++ {
-		switch r.next() {
-		case 1:
+		opcode := r.next()
+		switch opcode {
+		case 1, 4:
 			uid, n, bindReq, bind, required, excl, hf := r.next(), r.next(), r.next(), r.next(), r.next(), r.next(), r.next()
 			bits := r.list()
 			c, m := r.next(), r.next()
@@ -585,8 +602,51 @@ func vtC06LedgerExec(in []int64) []int64 {
 				}
 				options.hint = topologymanager.NUMATopologyHint{NUMANodeAffinity: mask}
 			}
+			host, victim := int64(-1), int64(-1)
+			if opcode == 4 {
+				hof, ho, vf, v := r.next(), r.next(), r.next(), r.next()
+				_, uidLive := liveSet(uid)
+				if hof != 0 {
+					_, hl := liveSet(ho)
+					isGuest := false
+					for _, e := range edges {
+						if e.guest == ho {
+							isGuest = true
+						}
+					}
+					if hl && ho != uid && !uidLive && !isGuest {
+						host = ho
+					}
+				}
+				if vf != 0 {
+					_, vl := liveSet(v)
+					if vl && v != uid && !uidLive && v != host {
+						victim = v
+					}
+				}
+				if host >= 0 {
+					remaining, _ := liveSet(host)
+					for _, e := range edges {
+						if e.host == host {
+							remaining = remaining.Difference(e.set)
+						}
+					}
+					options.preferredCPUs = remaining
+				}
+				if victim >= 0 {
+					options.preemptibleCPUs, _ = liveSet(victim)
+				}
+			}
 			alloc, status := rm.Allocate(node, pod, options)
 			if status.IsSuccess() && alloc != nil {
+				if victim >= 0 {
+					rm.Release(vtC06Node, vtC06UID(victim))
+					edgesDel(victim)
+				}
+				edgesDel(uid)
+				if host >= 0 {
+					edges = append(edges, edge{guest: uid, host: host, set: alloc.CPUSet.Intersection(options.preferredCPUs)})
+				}
 				rm.Update(vtC06Node, alloc)
 				out = append(out, 1)
 				out = append(out, vtC06Ints(alloc.CPUSet.ToSlice())...)
@@ -599,7 +659,9 @@ func vtC06LedgerExec(in []int64) []int64 {
 				out = append(out, 0, 0, 0)
 			}
 		case 2:
-			rm.Release(vtC06Node, vtC06UID(r.next()))
+			uid := r.next()
+			rm.Release(vtC06Node, vtC06UID(uid))
+			edgesDel(uid)
 			out = append(out, 1, 0, 0)
 		case 3:
 			uid, excl := r.next(), r.next()
@@ -612,6 +674,7 @@ func vtC06LedgerExec(in []int64) []int64 {
 			}
 			rm.Update(vtC06Node, &PodAllocation{UID: vtC06UID(uid), Namespace: "default", Name: string(vtC06UID(uid)),
 				CPUSet: cpuset.NewCPUSet(cpus...), CPUExclusivePolicy: vtC06Excl(excl), NUMANodeResources: nr})
+			edgesDel(uid)
 			out = append(out, 1, 0, 0)
 		default:
 			panic("bad op")
@@ -669,17 +732,28 @@ func vtC06LedgerGen(r *rand.Rand, i int) (string, []int64) {
 		}
 	}
 	withUpdates := r.Intn(3) == 0
+	giveBacks := !withUpdates && r.Intn(2) == 0 // reservations (uids 0,1) with owner pods and preemption
 	nops := 1 + r.Intn(12)
 	in = append(in, int64(nops))
 	label := "clean"
 	if withUpdates {
 		label = "with-restore"
 	}
+	if giveBacks {
+		label = "give-backs"
+	}
 	for k := 0; k < nops; k++ {
 		uid := int64(r.Intn(5))
 		x := r.Intn(20)
+		if giveBacks {
+			uid = int64(r.Intn(7))
+			if k < 2 && r.Intn(3) != 0 {
+				uid = int64(k) // the reservations come first
+				x = 19
+			}
+		}
 		switch {
-		case x < 5:
+		case x < 5 && !(giveBacks && x < 2):
 			in = append(in, 2, uid)
 		case x < 8 && withUpdates:
 			var ids []int
@@ -708,7 +782,12 @@ func vtC06LedgerGen(r *rand.Rand, i int) (string, []int64) {
 			if r.Intn(5) == 0 {
 				bindReq = 0
 			}
-			in = append(in, 1, uid, n, bindReq, bind, required, int64(r.Intn(3)))
+			opc := int64(1)
+			if giveBacks && uid >= 2 && r.Intn(4) != 0 {
+				opc = 4
+				bindReq = 1
+			}
+			in = append(in, opc, uid, n, bindReq, bind, required, int64(r.Intn(3)))
 			if r.Intn(5) < 2 {
 				var bits []int
 				for _, nd := range nodes {
@@ -740,6 +819,16 @@ func vtC06LedgerGen(r *rand.Rand, i int) (string, []int64) {
 				mem = -1
 			}
 			in = append(in, cpu, mem)
+			if opc == 4 {
+				hostFlag, victimFlag := int64(0), int64(0)
+				if r.Intn(3) != 0 {
+					hostFlag = 1
+				}
+				if r.Intn(2) == 0 {
+					victimFlag = 1
+				}
+				in = append(in, hostFlag, int64(r.Intn(2)), victimFlag, int64(r.Intn(7)))
+			}
 		}
 	}
 	return fmt.Sprintf("%s:ref%d:ops%d", label, maxRef, nops), in
